@@ -39,14 +39,19 @@ class Source:
         if vsched.SCHED is not None and vsched.SCHED.cur is not None:
             vsched.SCHED.yield_op(("op", None, "urandom"), write=False)
         self.draws += 1
-        if self.script:
-            v = self.script.pop(0)
-        else:
-            self.fresh += 1
-            v = (0xF0000000 + self.fresh).to_bytes(4, "big")
-        if self.log is not None:
-            self.log("draw", v)
-        return v[:n]
+        out = b""
+        while True:
+            # a caller that asks for more than one word gets the next words of the same stream (block reads)
+            if self.script:
+                v = self.script.pop(0)
+            else:
+                self.fresh += 1
+                v = (0xF0000000 + self.fresh).to_bytes(4, "big")
+            if self.log is not None:
+                self.log("draw", v)
+            out += v
+            if len(out) >= n:
+                return out[:n]
 
     def __getattr__(self, name):
         return getattr(self._os, name)
@@ -118,6 +123,8 @@ def check_sequential(rep, byname):
 Threads == {{1}}
 Vals == {{1, 2, 3}}
 UseLock == TRUE
+Failing == {{}}
+ReleaseLast == FALSE
 INSTANCE Ids WITH pc <- 0, reg <- 0, val <- 0, issued <- 0, owner <- 0, result <- 0
 Ops == UNION {{[1..n -> {{"req", "ans", "hdr", "ansh", "reqh"}}] : n \\in 1..{maxops}}}
 Srcs == [1..{srclen} -> Vals]
@@ -130,6 +137,8 @@ Vecs == SetToSeq({{[ops |-> o, src |-> s, exp |-> Run(o, s)] : o \\in {{x \\in O
     base.os = src
     rng = random.Random(rep.seed * 7919 + 15)
     reqs = typed_requests()
+    seen_h = set(bytes(x) for x in DiameterRequest.hop_by_hop_identifiers)
+    seen_e = set(bytes(x) for x in DiameterRequest.end_to_end_identifiers)
     try:
         for n, v in enumerate(vecs):
             rep.case(("seq", n))
@@ -154,12 +163,19 @@ Vecs == SetToSeq({{[ops |-> o, src |-> s, exp |-> Run(o, s)] : o \\in {{x \\in O
                         break        # scripted source exhausted: the remaining draws are the harness's fresh values
                     want = (conc[v["src"][e["hbh"] - 1]], conc[v["src"][e["e2e"] - 1]])
                     got = (m.header.hop_by_hop, m.header.end_to_end)
-                    if got != want:
+                    # the property: different from the identifiers of every request created earlier in this process
+                    if got[0] in seen_h or got[1] in seen_e:
                         rep.violation(f"request {k + 1} of history {v['ops']} with random source {v['src']}: identifiers "
-                                      f"{got[0].hex()}/{got[1].hex()}, specification {want[0].hex()}/{want[1].hex()} (draws {e['hbh']}/{e['e2e']})", replay)
+                                      f"{got[0].hex()}/{got[1].hex()} - {'Hop-by-Hop' if got[0] in seen_h else 'End-to-End'} already carried by an earlier request "
+                                      f"(specification: {want[0].hex()}/{want[1].hex()}, draws {e['hbh']}/{e['e2e']})", replay)
                         break
-                    if src.draws != e["next"] - 1:
-                        rep.violation(f"request {k + 1} of history {v['ops']} source {v['src']}: {src.draws} draws consumed so far, specification {e['next'] - 1}", replay)
+                    seen_h.add(got[0])
+                    seen_e.add(got[1])
+                    if got != want or src.draws != e["next"] - 1:
+                        # another draw protocol than the specified one (e.g. block reads): not a statement of the property
+                        rep.nonprop_differences += 1
+                        rep.notes.setdefault("draw_protocol_differences", []).append({"ops": v["ops"], "src": v["src"], "request": k + 1}) \
+                            if len(rep.notes.get("draw_protocol_differences", [])) < 3 else None
                         break
                     last = m
                 else:
@@ -263,6 +279,7 @@ def run_concurrent(seed, nthreads, script_vals, opcode, kinds=("generic",)):
         s.opcode_funcs = {"__set_hop_by_hop_identifier", "__set_end_to_end_identifier"}
         s.opcode_budget = 4000
     results = {}
+    failed = []
 
     from bromelia.messages import CER, DWR, DPR
 
@@ -274,6 +291,16 @@ def run_concurrent(seed, nthreads, script_vals, opcode, kinds=("generic",)):
             r = DWR()
         elif kind == "DPR":
             r = DPR()
+        elif kind == "bad":
+            # a construction that fails once its identifiers are drawn (the command code does not fit 24 bits)
+            try:
+                DiameterRequest(command_code=2 ** 24 + i, application_id=16777251)
+            except BaseException as e:
+                if type(e).__module__ != "bromelia.exceptions":
+                    raise
+                failed.append(i)
+                return
+            raise AssertionError("a 25-bit command code was accepted")
         else:
             r = DiameterRequest(command_code=316, application_id=16777251)
         results[i] = (r.header.hop_by_hop, r.header.end_to_end)
@@ -289,7 +316,33 @@ def run_concurrent(seed, nthreads, script_vals, opcode, kinds=("generic",)):
     finally:
         TracedList.log = None
     dead = [(t.name, f"{type(t.exc).__name__}: {t.exc}") for t in s.threads if t.exc is not None]
-    return events, results, out, dead
+    recorded = list(events)        # (what follows is not part of the recorded execution)
+    if out == "alldone" and not dead:
+        # afterwards the source repeats every identifier that a request of this execution carries: each must be drawn again
+        src.log = None
+        src.script = [x for pair in results.values() for x in pair] * 2
+        late = 0
+        for j in range(2):
+            r = DiameterRequest(command_code=316, application_id=16777251)
+            late += 1
+            results[1000 + j] = (r.header.hop_by_hop, r.header.end_to_end)
+    results["failed"] = list(failed)
+    return recorded, results, out, dead
+
+
+def concurrent_verdict(k, results, out, dead, script):
+    failed = results.pop("failed", [])
+    made = {i: r for i, r in results.items() if i < 1000}
+    if out != "alldone" or dead or len(made) + len(failed) != k:
+        return f"{k} concurrent request creations: scheduler outcome {out}, dead threads {dead}"
+    hs = [r[0] for r in results.values()]
+    es = [r[1] for r in results.values()]
+    if len(set(hs)) != len(hs) or len(set(es)) != len(es):
+        late = " (the last two were created afterwards, from a source that repeats the earlier identifiers)" if len(results) > len(made) else ""
+        fl = f"; the construction of thread(s) {failed} failed after its draws" if failed else ""
+        return (f"{len(hs)} requests share an identifier: Hop-by-Hop {[h.hex() for h in hs]}, End-to-End {[e.hex() for e in es]}{late}{fl} "
+                f"(random source {[x.hex() for x in script[:6]]})")
+    return None
 
 
 def check_concurrent(rep):
@@ -301,12 +354,18 @@ def check_concurrent(rep):
     locked = any(type(v).__name__ in ("lock", "RLock") for v in vars(DiameterRequest).values())
     rep.notes["class_level_lock_present"] = locked
     # model checking
-    for k, vals in ((2, "{1, 2, 3}"), (3, "{1, 2}")) if rep.tier == "quick" else ((2, "{1, 2, 3}"), (3, "{1, 2, 3}")):
-        cfg = f"SPECIFICATION Spec\nCONSTANTS Threads = {{{', '.join(str(i) for i in range(1, k + 1))}}}\n Vals = {vals}\n UseLock = TRUE\nINVARIANT Distinct\nINVARIANT Mutex\nCHECK_DEADLOCK FALSE\n"
+    for k, vals, fail in ((2, "{1, 2, 3}", ""), (3, "{1, 2}", "1")) if rep.tier == "quick" else ((2, "{1, 2, 3}", "1"), (3, "{1, 2, 3}", "1")):
+        cfg = f"SPECIFICATION Spec\nCONSTANTS Threads = {{{', '.join(str(i) for i in range(1, k + 1))}}}\n Vals = {vals}\n UseLock = TRUE\n Failing = {{{fail}}}\n ReleaseLast = FALSE\nINVARIANT Distinct\nINVARIANT Mutex\nINVARIANT Registered\nCHECK_DEADLOCK FALSE\n"
         res, _ = tlc.run("Ids", cfg, workers=8, timeout=1500)
         tlc.must_ok(res, f"Ids K={k}")
-        rep.tlc(f"Ids K={k} UseLock", res)
-    cfg = "SPECIFICATION Spec\nCONSTANTS Threads = {1, 2}\n Vals = {1, 2}\n UseLock = FALSE\nINVARIANT Distinct\nCHECK_DEADLOCK FALSE\n"
+        rep.tlc(f"Ids K={k} UseLock Failing={{{fail}}}", res)
+    # a failed construction that pops the last registry entries (which may be another request's) lets an identifier be issued twice
+    cfg = "SPECIFICATION Spec\nCONSTANTS Threads = {1, 2, 3}\n Vals = {1, 2}\n UseLock = TRUE\n Failing = {1}\n ReleaseLast = TRUE\nINVARIANT Distinct\nINVARIANT Registered\nCHECK_DEADLOCK FALSE\n"
+    r3, _ = tlc.run("Ids", cfg, workers=4, timeout=600)
+    if r3.violated not in ("Distinct", "Registered"):
+        raise tlc.TlcError(f"vacuity self-test: release-last-on-failure does not violate Distinct / Registered (got {r3.violated})")
+    rep.notes["release_last_on_failure_violates"] = r3.violated
+    cfg = "SPECIFICATION Spec\nCONSTANTS Threads = {1, 2}\n Vals = {1, 2}\n UseLock = FALSE\n Failing = {}\n ReleaseLast = FALSE\nINVARIANT Distinct\nCHECK_DEADLOCK FALSE\n"
     r2, _ = tlc.run("Ids", cfg, workers=4, timeout=600)
     if r2.violated != "Distinct":
         raise tlc.TlcError("vacuity self-test: the lock-free variant does not violate Distinct")
@@ -325,18 +384,14 @@ def check_concurrent(rep):
             opcode = rep.tier == "thorough" and i % 4 == 0
             seed = rng.getrandbits(30)
             # typed classes first (before any generic request exists in this process), then mixtures
-            kinds = [("CER", "DWR", "DPR"), ("DWR", "CER", "generic"), ("generic",), ("DPR", "generic", "CER")][0 if i < 40 else i % 4]
+            kinds = [("CER", "DWR", "DPR"), ("DWR", "CER", "generic"), ("generic",), ("DPR", "generic", "CER"),
+                     ("bad", "generic", "DWR"), ("generic", "bad", "generic")][0 if i < 40 else i % 6]
             events, results, out, dead = run_concurrent(seed, k, script, opcode, kinds)
             rep.case(("conc", i))
             replay = {"kind": "concurrent", "seed": seed, "threads": k, "script": [x.hex() for x in script], "opcode": opcode, "kinds": list(kinds)}
-            if out != "alldone" or dead or len(results) != k:
-                rep.violation(f"{k} concurrent request creations: scheduler outcome {out}, dead threads {dead}", replay)
-                continue
-            hs = [r[0] for r in results.values()]
-            es = [r[1] for r in results.values()]
-            if len(set(hs)) != k or len(set(es)) != k:
-                rep.violation(f"{k} requests created concurrently share an identifier: Hop-by-Hop {[h.hex() for h in hs]}, End-to-End "
-                              f"{[e.hex() for e in es]} (random source {[x.hex() for x in script[:6]]})", replay)
+            verdict = concurrent_verdict(k, results, out, dead, script)
+            if verdict:
+                rep.violation(verdict, replay)
                 continue
             # value abstraction for TLC: first byte of each 4-byte value
             traces.append(events)
@@ -363,7 +418,7 @@ def validate_traces(rep, traces, metas, locked):
             tf = os.path.join(wd, "traces.json")
             json.dump([t for t, _m in sel], open(tf, "w"))
             cfg = (f"SPECIFICATION TraceSpec\nCONSTANTS Threads = {{{', '.join(str(i) for i in range(1, k + 1))}}}\n Vals = {{1, 2, 3, 4, 5, 6, 7, 8, 9, 10, 11}}\n"
-                   f" UseLock = {'TRUE' if locked else 'FALSE'}\nINVARIANT Distinct\nCONSTRAINT Progress\nPOSTCONDITION Accepted\nCHECK_DEADLOCK FALSE\n")
+                   f" UseLock = {'TRUE' if locked else 'FALSE'}\n Failing = {{}}\n ReleaseLast = FALSE\nINVARIANT Distinct\nCONSTRAINT Progress\nPOSTCONDITION Accepted\nCHECK_DEADLOCK FALSE\n")
             res, _ = tlc.run("Trace_Ids", cfg, extra_modules={"Trace_Ids": TRACE_MODULE.replace("TRACEFILE", T(tf))}, wd=wd, workers=1, timeout=1500)
             rep.tlc(f"Trace_Ids K={k}", res)
             m = re.search(r'<<\s*"PROGRESS"', res.out)
@@ -409,9 +464,11 @@ def replay(rep, path):
         vsched.install(0)
         events, results, out, dead = run_concurrent(r["seed"], r["threads"], [bytes.fromhex(x) for x in r["script"]], r.get("opcode", False),
                                                     tuple(r.get("kinds", ("generic",))))
-        hs = [x[0] for x in results.values()]
-        es = [x[1] for x in results.values()]
-        if out != "alldone" or dead or len(set(hs)) != len(hs) or len(set(es)) != len(es):
+        verdict = concurrent_verdict(r["threads"], results, out, dead, [bytes.fromhex(x) for x in r["script"]])
+        hs = es = []
+        if verdict:
+            rep.violation(verdict, r)
+        elif False:
             rep.violation(f"concurrent creation: outcome {out} {dead}; Hop-by-Hop {[h.hex() for h in hs]} End-to-End {[e.hex() for e in es]}", r)
         rep.states, rep.transitions = 1, 1
     rep.case(str(r)[:80])
